@@ -203,6 +203,7 @@ theorem startHandler_cinv {s : S} (h : CInv s) (i : Nat) (k : HKind) :
   | quick => exact h.mono rfl rfl rfl rfl rfl id id
   | slow => exact h.mono rfl rfl rfl rfl rfl id id
   | stubborn r => exact h.mono rfl rfl rfl rfl rfl id id
+  | aborter => exact doAbort_cinv (h.mono rfl rfl rfl rfl rfl id id)
   | closer fa =>
     simp only []
     split
